@@ -29,10 +29,12 @@ def judge(lines, lh):
             bad.append(l)
     if bad:
         return bad
-    if len(lh) < 5 or not lh[1].startswith('S '):
+    if len(lh) < 2 or not lh[1].startswith('S '):
         return None          # serialisation problems are C02's business
-    if not lh[3].startswith('Q '):
+    if len(lh) >= 4 and not lh[3].startswith('Q '):
         return ['the serialization of the accepted packet is rejected by the same parser: %s' % lh[3][:80]]
+    if len(lh) < 5:
+        return None
     p2, q = split_layers(lh[2]), split_layers(lh[3])
     # an empty payload counts as no payload
     strip = lambda ls: [x for x in ls if not re.fullmatch(r'RawPDU payload=x payload_size=0', x)]
